@@ -82,7 +82,7 @@ fn cmd_run(args: &[String]) -> i32 {
                     continue;
                 }
                 idle += 1;
-                if idle >= 20 {
+                if idle >= 120 {
                     let evs = exec::CUR_EVENTS.lock().unwrap().clone();
                     if let Ok(mut f) = std::fs::OpenOptions::new()
                         .create(true)
